@@ -193,6 +193,56 @@ func families() []family {
 				}
 				return e, short
 			}},
+		{name: "double_paren_and_nest", fns: allFns, quick: geo(15, 60, 250, 600), thor: geo(15, 60, 250, 1000, 2500),
+			build: func(u *gen.Universe, n int) (string, []string) {
+				// S_k = ((a_k AND S_k-1) AND b_k): a "((" that does not close as "))" at every level (speculative parsers re-parse)
+				e := idAt(u, 0)
+				for i := 1; i <= n; i++ {
+					e = "((" + idAt(u, 2*i) + " AND " + e + ") AND " + idAt(u, 2*i+1) + ")"
+				}
+				return e, short
+			}},
+		{name: "double_paren_or_nest", fns: allFns, quick: geo(15, 60, 250, 600), thor: geo(15, 60, 250, 1000, 2500),
+			build: func(u *gen.Universe, n int) (string, []string) {
+				e := idAt(u, 0)
+				for i := 1; i <= n; i++ {
+					e = "((" + e + " OR " + idAt(u, 2*i) + ") OR " + idAt(u, 2*i+1) + ")"
+				}
+				return e, short
+			}},
+		{name: "wrapped_middle_nest", fns: allFns, quick: geo(15, 60, 250, 600), thor: geo(15, 60, 250, 1000, 2500),
+			build: func(u *gen.Universe, n int) (string, []string) {
+				e := idAt(u, 0)
+				for i := 1; i <= n; i++ {
+					e = "(" + idAt(u, 2*i) + " AND ((" + e + ")) AND " + idAt(u, 2*i+1) + ")"
+				}
+				return e, short
+			}},
+		{name: "left_nest_and", fns: allFns, quick: geo(15, 60, 250, 600), thor: geo(15, 60, 250, 1000, 2500),
+			build: func(u *gen.Universe, n int) (string, []string) {
+				e := idAt(u, 0)
+				for i := 1; i <= n; i++ {
+					e = "(" + e + " AND " + idAt(u, i) + ")"
+				}
+				return e, short
+			}},
+		{name: "right_nest_or", fns: allFns, quick: geo(15, 60, 250, 600), thor: geo(15, 60, 250, 1000, 2500),
+			build: func(u *gen.Universe, n int) (string, []string) {
+				e := idAt(u, 0)
+				for i := 1; i <= n; i++ {
+					e = "(" + idAt(u, i) + " OR " + e + ")"
+				}
+				return e, short
+			}},
+		{name: "unclosed_nest_error", fns: allFns, quick: geo(15, 60, 250, 600), thor: geo(15, 60, 250, 1000, 2500),
+			build: func(u *gen.Universe, n int) (string, []string) {
+				// the double-paren nest with its last ")" missing: invalid, found only at the very end
+				e := idAt(u, 0)
+				for i := 1; i <= n; i++ {
+					e = "((" + idAt(u, 2*i) + " AND " + e + ") AND " + idAt(u, 2*i+1) + ")"
+				}
+				return e[:len(e)-1], short
+			}},
 		{name: "and_of_and_groups", fns: allFns, quick: geo(15, 60, 250, 700), thor: geo(15, 60, 250, 1000, 3000),
 			build: func(u *gen.Universe, n int) (string, []string) {
 				var g []string
